@@ -290,8 +290,12 @@ func c18ExploreMain(args []string) int {
 	snap := c18Snapshot()
 	out := &c18ExploreOut{}
 	outcomes := map[string]bool{}
+	drv.StartWatchdog()
 	for i := lo; i < hi && i < len(scns); i++ {
+		fmt.Fprintf(os.Stderr, "AT scenario %d %v\n", i, scnNames(scns[i]))
+		drv.WatchdogBegin("c18explore scenario", uint64(i))
 		c18ExploreScenario(scns[i], bound, maxPoints, solo, snap, out, outcomes)
+		drv.WatchdogEnd()
 		out.Scenarios++
 	}
 	out.Outcomes = len(outcomes)
